@@ -63,6 +63,10 @@ func gadgetSpace() []expr.Expr {
 		ir.ConstU(0x01ff, 2),
 		expr.NewMemLoad("mem", expr.NewRegLoad("r2", 1), 2),
 		expr.NewBinary(expr.Mul, expr.NewRegLoad("r1", 2), expr.NewRegLoad("r1", 2), 3),
+		// conditionals that compare operands WIDER than themselves (the comparison is made at the
+		// conditional's own width), with branches that fit
+		expr.NewLess(expr.NewRegLoad("r1", 2), ir.ConstU(0x0100, 2), ir.ConstU(1, 1), ir.ConstU(0, 1), 1),
+		expr.NewLess(expr.NewRegLoad("r2", 4), expr.NewRegLoad("r1", 4), ir.ConstU(0x0201, 2), expr.NewRegLoad("r2", 1), 2),
 	}
 	gw := []expr.Width{1, 2, 3, 4}
 	var chains []expr.Expr
